@@ -33,7 +33,7 @@ def shards(tier):
     ]
     # every valid N<=2 tableau is a shard-disjoint union: shard i takes maps k = i (mod parts)
     for i in range(4):
-        out.append({"name": "small.np.interp.%d" % i, "mode": "interp", "backend": "np", "fn": "small", "stride": 96 if q else 4,
+        out.append({"name": "small.np.interp.%d" % i, "mode": "interp", "backend": "np", "fn": "small", "stride": 96 if q else 24,
                     "part": i, "parts": 4})
     for i in range(8):
         out.append({"name": "small.np.jit.%d" % i, "mode": "jit", "backend": "np", "fn": "small", "stride": 24 if q else 1,
